@@ -149,13 +149,13 @@ func checkIsNamespaceAccessAllowed(c *Ctx, res *report.Result, f *ssa.Function) 
 			nret++
 			gs := flow.NormGuards(flow.Guards(b))
 			if errGuard(gs) {
-				if cb, isC := flow.ConstBool(ret.Results[0]); !isC || cb {
+				if cb, isC := flow.ConstBool(flow.Ret(ret)[0]); !isC || cb {
 					ok, why = false, "on the visitor-error side the function does not return false"
 				}
 				continue
 			}
 			// success side: result is !Extract(v,0)
-			r0 := ret.Results[0]
+			r0 := flow.Ret(ret)[0]
 			u, isU := r0.(*ssa.UnOp)
 			if !isU || u.Op != token.NOT {
 				ok, why = false, "the success result is not the negation of the visitor's 'found a disallowed name' flag"
